@@ -10,6 +10,8 @@
   COV-receipts     ReceiptsCtx::clear resets both the receipt list and its Merkle tree.
   COV-balances     RuntimeBalances::to_vm overwrites vm.balances with the fresh balances.
 A new stateful field that is mutated during execution but not reset is reported without any test.
+  (C23) PRIORITY-stack-first  shared with C23: the heap buffer keeps its capacity across transactions, so on a reused
+                     instance heap_offset() may lie below the stack extent; memory accesses must test the stack first.
 Not decided: equality of results (values); ordering effects of hash-map iteration are listed as info.
 """
 import re
@@ -110,6 +112,7 @@ def run(F, rep, tier, allfacts):
     # reused memory: newly exposed heap/stack must read as zero (shared with C23)
     from props import C23 as _c23
     _c23.run_growth(F, rep)
+    _c23.run_priority(F, rep)
 
     # MemoryInstance::reset
     mfe = FieldEffects(cg, r"^fuel_vm::interpreter::memory::MemoryInstance$", r"fuel_vm::interpreter::memory::MemoryInstance")
